@@ -40,6 +40,13 @@ def session(rng, tier, stats):
                 size = 31 if mode == "small" else rng.choice([32, 64, 4096])
                 rr = 32 if mode == "ok" else (rng.choice([0, 5, 31]) if mode == "short" else (-1 if mode == "fail" else 32))
                 wr = 32 if mode == "ok" else (rng.choice([0, 31]) if mode == "short" else (-1 if mode == "fail" else 32))
+                if mode in ("short", "fail") and rng.random() < 0.5:
+                    # the two callbacks fail independently: a failed read followed by a good write (and the reverse)
+                    if rng.random() < 0.5:
+                        wr = 32
+                    else:
+                        rr = 32
+                    stats["storage"][k + "-mixed"] += 1
                 data = rnd_bytes(rng, 32)
                 body.append("RN %s %d %d %s %d" % (k.upper(), size, rr, hx(data), wr))
                 if mode not in ("small",):
